@@ -1,5 +1,6 @@
 (* C03 — Keep client and collection reads never deliver bytes that mismatch the locator: property
-   theorems only.  Each is closed by `exact` of a lemma from proofs/C03_proofs.v / proofs/C03_run_proofs.v.
+   theorems only.  Each is closed by `exact` of a lemma from proofs/C03_proofs.v / proofs/C03_run_proofs.v /
+   proofs/C03_spec.v / proofs/C03_loc_proofs.v.
 
    Vocabulary (model/C03_model.v, model/C03_run.v):
      H                 the digest (hex md5 in the implementation): an ARBITRARY function in every theorem; where
@@ -10,9 +11,17 @@
      get_or_head oracle retries order loc   the retry loop of getOrHead("GET"); oracle : service -> round -> response.
      fetch_entry, cache, cache_get, entry_read_at          BlockCache.Get / ReadAt.
      seg_read_at, file_read                                storedSegment.ReadAt and a sequential file reader.
-     run_model i       a whole client session: list of operations (Get+read mode, ReadAt, concurrent ReadAt, file). *)
+     run_model i       a whole client session: list of operations (Get+read mode, ReadAt, concurrent ReadAt, file).
+     spec_b            the judge of the implementation's observed results = ops_ok (results against the content the
+                       locator stands for, for blocks whose locator is consistent with a content) && notfound_ok &&
+                       ops_loc_ok (results against the LOCATOR alone: digest and size hint, for every block whatever
+                       its locator says; the length clauses are conditional on declared_only / loc_guard, functions of
+                       the case input: "every scripted 200 answer of the block declares a Content-Length").
+     declared_only bl  no scripted answer of bl is a 200 without Content-Length.
+     loc_guard i bl    bl's locator does not take the empty-block short cut, and every block of the case with the same
+                       hash (= cache key) has the same locator and is declared_only. *)
 From Coq Require Import Arith NArith List String Bool.
-From AV Require Import lib.Str model.C03_model model.C03_run proofs.C03_proofs proofs.C03_run_proofs proofs.C03_spec.
+From AV Require Import lib.Str model.C03_model model.C03_run proofs.C03_proofs proofs.C03_run_proofs proofs.C03_spec proofs.C03_loc_proofs.
 Import ListNotations.
 Local Open Scope nat_scope.
 
@@ -139,23 +148,91 @@ Proof. exact not_found_classes_full. Qed.
 Print Assumptions C03_not_found_classes.
 
 (* The oracle that judges the implementation is met by the model for every input: for every script of service
-   behaviours and every operation sequence over consistent blocks, the results of the model's run pass spec_b. *)
+   behaviours and every operation sequence over consistent blocks, the results of the model's run pass spec_b
+   (all three parts: content clauses, all-404 clause, locator clauses). *)
 Theorem C03_model_meets_spec : forall i,
   (forall bl, In bl (i_blocks i) -> Cons i bl) -> Forall (op_wf i) (i_ops i) ->
   spec_b {| c_in := i; c_obs := {| ob_res := fst (run_model i); ob_log := cs_log (snd (run_model i)); ob_sync := true |} |} = true.
 Proof. exact model_meets_spec. Qed.
 Print Assumptions C03_model_meets_spec.
 
-(* spec_b is true exactly when the Prop-level specification (proofs/C03_spec.v: OpSpec = per operation "a read that
-   reports success returned exactly the content's bytes, Close agrees with the read, the announced size is the
-   locator's"; NotFoundSpec = all-404 gives BlockNotFound) holds of the observed results *)
+(* The locator clauses need no hypothesis at all: whatever the blocks are (size hints that disagree with every
+   answer, locators whose hash is no content's digest, an arbitrary digest table, arbitrary scripts, block indices
+   out of range), every result of the model's run satisfies loc_ok — delivered data has the MD5 and the size that
+   appear in the locator, or the read ends in an error. *)
+Theorem C03_model_respects_locator_size : forall i, ops_loc_ok i (i_ops i) (fst (run_model i)) = true.
+Proof. exact model_loc_ok. Qed.
+Print Assumptions C03_model_respects_locator_size.
+
+(* ... and the cache invariant behind it: after any session, a data entry under a key that is used with one
+   locator only, all of whose 200 answers declare their length, has that locator's digest and size *)
+Theorem C03_cache_holds_locator_size : forall i bl d,
+  loc_guard i bl = true -> lookup (cs_cache (snd (run_model i))) (loc_hash (b_loc bl)) = Some (EData d) ->
+  H_of i d = loc_hash (b_loc bl) /\ (forall n, size_hint (b_loc bl) = Some n -> slen d = n).
+Proof. exact cache_holds_locator_size. Qed.
+Print Assumptions C03_cache_holds_locator_size.
+
+(* spec_b is true exactly when the Prop-level specification (proofs/C03_spec.v) holds of the observed results:
+   OpSpec = per operation "a read that reports success returned exactly the content's bytes, Close agrees with the
+   read, the announced size is the locator's" (consistent blocks); NotFoundSpec = all-404 gives BlockNotFound;
+   LocSpec = per operation, for any block: announced size = size hint, a complete successful read has the locator's
+   digest and (DeclaredOnly) the locator's size, a successful cached read (LocGuard) lies inside the locator's size,
+   has the length of the requested slice, and has the locator's digest when it covers the whole block *)
 Theorem C03_spec_b_reflects_Spec : forall c : case,
   spec_b c = true <->
-  (Forall2 (OpSpec (c_in c)) (i_ops (c_in c)) (ob_res (c_obs c)) /\ NotFoundSpec (c_in c) (ob_res (c_obs c))).
+  (Forall2 (OpSpec (c_in c)) (i_ops (c_in c)) (ob_res (c_obs c)) /\ NotFoundSpec (c_in c) (ob_res (c_obs c)) /\
+   Forall2 (LocSpec (c_in c)) (i_ops (c_in c)) (ob_res (c_obs c))).
 Proof. exact spec_b_reflects. Qed.
 Print Assumptions C03_spec_b_reflects_Spec.
 
-(* what spec_b demands of a successful cached read, spelled out *)
+Theorem C03_loc_ok_reflects_LocSpec : forall i o r, loc_ok i o r = true <-> LocSpec i o r.
+Proof. exact loc_ok_reflects. Qed.
+Print Assumptions C03_loc_ok_reflects_LocSpec.
+
+(* what the locator clauses demand of a streaming Get whose ReadAll ended in EOF, spelled out: the bytes have the
+   locator's digest; the announced size is the size hint; and when every scripted 200 answer of the block declares
+   a length, the number of bytes delivered is the size hint *)
+Theorem C03_spec_get_readall_meaning : forall i b size srv bytes cerr,
+  empty_block_loc (b_loc (blk_of i b)) = false ->
+  loc_ok i (OGet b MReadAll) (RGet ENil size srv bytes EEOF cerr) = true ->
+  H_of i bytes = loc_hash (b_loc (blk_of i b)) /\
+  (forall n, size_hint (b_loc (blk_of i b)) = Some n ->
+     size = n /\ (declared_only (blk_of i b) = true -> slen bytes = n)).
+Proof. exact spec_get_readall_meaning. Qed.
+Print Assumptions C03_spec_get_readall_meaning.
+
+(* ... and of a successful cached read *)
+Theorem C03_spec_readat_locator_meaning : forall i b k off bytes n,
+  loc_guard i (blk_of i b) = true -> size_hint (b_loc (blk_of i b)) = Some n ->
+  loc_ok i (OReadAt b k off) (RRead bytes ENil) = true ->
+  off <= n /\ slen bytes = Nat.min k (n - off) /\ (off = 0 -> n <= k -> H_of i bytes = loc_hash (b_loc (blk_of i b))).
+Proof. exact spec_readat_loc_meaning. Qed.
+Print Assumptions C03_spec_readat_locator_meaning.
+
+(* THE GAP (faithful to the code).  The length clause does NOT hold without the declared-length condition: when a
+   service answers 200 without Content-Length, getOrHead has nothing to compare the size hint with and the
+   HashCheckingReader verifies the digest only.  Witness: one service answering with the chunked body "foo";
+   Get of "acbd18db4cc2f85cedef654fccc4a4d8+5" (md5 of "foo", size hint 5) announces size 5 and its ReadAll delivers
+   the 3 bytes "foo" with a clean EOF and a successful Close. *)
+Theorem C03_chunked_wrong_size_delivered_refuted :
+  ~ (forall i b size srv bytes cerr n,
+       i_ops i = [OGet b MReadAll] -> fst (run_model i) = [RGet ENil size srv bytes EEOF cerr] ->
+       size_hint (b_loc (blk_of i b)) = Some n -> slen bytes = n).
+Proof. exact length_clause_needs_declared_length. Qed.
+Print Assumptions C03_chunked_wrong_size_delivered_refuted.
+
+(* the witness itself, and its cached counterpart: for "acbd18db4cc2f85cedef654fccc4a4d8+2" the cache keeps the
+   first 2 bytes of the verified 3-byte stream and serves "fo" as a successful read of the whole block *)
+Theorem C03_chunked_wrong_size_witness :
+  (declared_only (ex_chunked_block "5") = false /\ size_hint (b_loc (ex_chunked_block "5")) = Some 5 /\
+   fst (run_model (ex_chunked_in "5" (OGet 0 MReadAll))) = [RGet ENil 5 0 "foo" EEOF ENil]) /\
+  (declared_only (ex_chunked_block "2") = false /\ size_hint (b_loc (ex_chunked_block "2")) = Some 2 /\
+   fst (run_model (ex_chunked_in "2" (OReadAt 0 8 0))) = [RRead "fo" ENil] /\
+   H_of (ex_chunked_in "2" (OReadAt 0 8 0)) "fo" <> loc_hash (b_loc (ex_chunked_block "2"))).
+Proof. exact chunked_wrong_size_delivered. Qed.
+Print Assumptions C03_chunked_wrong_size_witness.
+
+(* what the content clauses of spec_b demand of a successful cached read, spelled out *)
 Theorem C03_spec_readat_meaning : forall i b n off bytes,
   b_consistent (blk_of i b) = true ->
   op_ok i (OReadAt b n off) (RRead bytes ENil) = true ->
